@@ -112,6 +112,20 @@ def do_case(ctx, inp):
         d2 = {n["id"]: [tuple(x) for x in n["default"]] for n in subs(t2) if n["k"] == "node" and n["default"] and n["id"] in ex}
         if d1 != d2:
             ctx.fail("defaults-not-kept", {"before": d1, "after": d2}); return
+        # … and for choices without an explicit id: matched by class and the set of leaves below them; THE default is the
+        # first entry of the list (the model is restructured around it), so the order of the list matters
+        def by_shape(tt):
+            out, seen = {}, set()
+            for n in subs(tt):
+                if n["k"] == "node" and n["default"]:
+                    key = (n["cls"], tuple(sorted(leaves_of(n))))
+                    if key in seen: out.pop(key, None)
+                    else: seen.add(key); out[key] = [x[0] for x in n["default"]]
+            return out
+        s1, s2 = by_shape(t), by_shape(t2)
+        for key in s1:
+            if key in s2 and s1[key] != s2[key]:
+                ctx.fail("defaults-not-kept", {"choice_over": list(key[1]), "class": key[0], "before": s1[key], "after": s2[key]}); return
         named = ex | set(lv)
         p1 = {k: int(v) for k, v in o.default_prios.items() if k in named}
         p2 = {k: int(v) for k, v in o2.default_prios.items() if k in named}
@@ -172,7 +186,7 @@ def run(ctx):
     for _ in range(n):
         if rng.random() < 0.35:
             # configurators; a third of them rich in choices nested below choices (defaults below defaults)
-            a, o, t = valid_configurator(rng, ctx.quick, nest_p=0.3 if rng.random() < 0.65 else 0.9, odd_items_p=0.25)
+            a, o, t = valid_configurator(rng, ctx.quick, nest_p=0.3 if rng.random() < 0.65 else 0.9, odd_items_p=0.25, multi_default_p=0.5)
         else:
             a, o, t = gen_valid(rng, ctx.quick, classes=[c for c in CLASSES if not c.startswith("cc")], wide_p=0.02, empty_p=0.04)
         do_case(ctx, {"ast": a})
